@@ -387,15 +387,121 @@ def _engine_db() -> dict:
     if not uns or not _is(uns[0].body[-1], 'return inv_list, make_lookup(file, base + inv_list)'):
         raise TranslateError('BinStrDict.unserialise lookup list not recognised')
     digests = {}
+    edb: dict[str, ast.FunctionDef] = {}
     for n in ast.walk(tree):
         if isinstance(n, ast.ClassDef) and n.name == 'EngineDB':
             for f in n.body:
                 if isinstance(f, ast.FunctionDef) and f.name in ('get_ent', '_parse_block', 'get_fgd'):
                     digests[f.name] = ast_digest(f)
+                    edb[f.name] = f
     if set(digests) != {'get_ent', '_parse_block', 'get_fgd'}:
         raise TranslateError('EngineDB.get_ent/_parse_block/get_fgd not found')
-    return dict(vt_members=vt_members, vt_order=vt_order, et_members=et_members, ft_members=ft_members, ft_order=ft_order,
+    lazy = _lazy_db(edb)
+    return dict(lazy=lazy, vt_members=vt_members, vt_order=vt_order, et_members=et_members, ft_members=ft_members, ft_order=ft_order,
                 ef_members=ef_members, structs=structs, consts=consts, bits=bits, digests=digests)
+
+
+def _self_attr(node: ast.AST, attr: str) -> bool:
+    return isinstance(node, ast.Attribute) and node.attr == attr and isinstance(node.value, ast.Name) and node.value.id == 'self'
+
+
+def _self_call(node: ast.AST, meth: str) -> bool:
+    return isinstance(node, ast.Call) and _self_attr(node.func, meth)
+
+
+def _lazy_db(edb: dict[str, ast.FunctionDef]) -> dict:
+    """The decisive shapes of EngineDB.get_ent / _parse_block / get_fgd (the model is SM/LazyDb.v):
+      * get_ent: look the (casefolded) name up in ent_map, return a decoded entry at once, otherwise
+        _parse_block(<that entry>) and look the name up again;
+      * _parse_block: returns at once for an emptied block; the block is marked as decoded (`self.unparsed[index] = ...`)
+        before or after the loop that replaces the stored base names (mark_before_resolve), and that loop resolves
+        each name through self.get_ent (decoding the block of the base on demand) or by looking at self.ent_map only
+        (via_get_ent);
+      * get_fgd: calls _parse_block for every block index of enumerate(self.unparsed)."""
+    # ---- get_ent
+    ge = edb['get_ent']
+    gargs = [a.arg for a in ge.args.args]
+    if len(gargs) != 2:
+        raise TranslateError(f'EngineDB.get_ent signature changed: {gargs}')
+    cn = gargs[1]
+    look = f'self.ent_map[{cn}.casefold()]'
+    gb = [st for st in _body(ge) if not isinstance(st, ast.Assert)]
+    ok = (len(gb) == 5 and isinstance(gb[0], ast.Assign) and isinstance(gb[0].targets[0], ast.Name) and _is(gb[0].value, look)
+          and isinstance(gb[1], ast.If) and not gb[1].orelse and len(gb[1].body) == 1 and isinstance(gb[1].body[0], ast.Return)
+          and isinstance(gb[3], ast.Assign) and isinstance(gb[3].targets[0], ast.Name) and _is(gb[3].value, look)
+          and isinstance(gb[4], ast.Return))
+    if ok:
+        v0, v1 = gb[0].targets[0].id, gb[3].targets[0].id  # type: ignore[attr-defined]
+        ok = (_is(gb[1].test, f'isinstance({v0}, EntityDef)') and _is(gb[1].body[0], f'return {v0}')  # type: ignore[attr-defined]
+              and _is(gb[2], f'self._parse_block({v0})') and _is(gb[4], f'return {v1}'))
+    if not ok:
+        raise TranslateError('EngineDB.get_ent: look-up / isinstance / _parse_block / second look-up not recognised')
+    # ---- _parse_block
+    pb = edb['_parse_block']
+    pargs = [a.arg for a in pb.args.args]
+    if len(pargs) != 2:
+        raise TranslateError(f'EngineDB._parse_block signature changed: {pargs}')
+    idx = pargs[1]
+    body = _body(pb)
+    if not (body and isinstance(body[0], ast.Assign) and _is(body[0].value, f'self.unparsed[{idx}]')
+            and isinstance(body[0].targets[0], ast.Tuple) and len(body[0].targets[0].elts) == 2
+            and all(isinstance(e, ast.Name) for e in body[0].targets[0].elts)):
+        raise TranslateError('_parse_block does not start with `classes, data = self.unparsed[index]`')
+    classes, data = (e.id for e in body[0].targets[0].elts)  # type: ignore[attr-defined]
+    if not (len(body) > 1 and _is(body[1], f'if not {data}:\n    return')):
+        raise TranslateError('_parse_block: `if not data: return` not recognised')
+    mark = [i for i, st in enumerate(body) if isinstance(st, ast.Assign) and len(st.targets) == 1
+            and ast.unparse(st.targets[0]) == f'self.unparsed[{idx}]']
+    if len(mark) != 1 or not _is(body[mark[0]].value, "((), b'')"):  # type: ignore[attr-defined]
+        raise TranslateError("_parse_block: the statement `self.unparsed[index] = ((), b'')` was not found exactly once")
+    loops = [i for i, st in enumerate(body) if isinstance(st, ast.For)]
+    if len(loops) != 2:
+        raise TranslateError(f'_parse_block: expected the decoding loop and the bases loop, found {len(loops)} loops')
+    dec, app = body[loops[0]], body[loops[1]]
+    if not _is(dec.iter, classes):  # type: ignore[attr-defined]
+        raise TranslateError('_parse_block: the first loop does not run over the class names of the block')
+    stores = [n for n in ast.walk(dec) if isinstance(n, ast.Assign) and any(
+        isinstance(t, ast.Subscript) and _self_attr(t.value, 'ent_map') for t in n.targets)]
+    if len(stores) != 1 or not (isinstance(stores[0].value, ast.Call) and _is(stores[0].value.func, 'ent_unserialise')):
+        raise TranslateError('_parse_block: `self.ent_map[...] = ent_unserialise(...)` not recognised in the decoding loop')
+    # which list collects the definitions with stored bases
+    appends = [n for n in ast.walk(dec) if isinstance(n, ast.Call) and _is_call_method(n, 'append')
+               and isinstance(n.func.value, ast.Name)]  # type: ignore[attr-defined]
+    pend = {n.func.value.id for n in appends}  # type: ignore[attr-defined]
+    if not (isinstance(app.iter, ast.Name) and app.iter.id in pend and not app.orelse):  # type: ignore[attr-defined]
+        raise TranslateError('_parse_block: the second loop does not run over the list filled by the decoding loop')
+    get_calls = [n for n in ast.walk(app) if _self_call(n, 'get_ent')]
+    map_reads = [n for n in ast.walk(app) if _self_attr(n, 'ent_map')]
+    other_self = [n for n in ast.walk(app) if isinstance(n, ast.Attribute) and isinstance(n.value, ast.Name) and n.value.id == 'self'
+                  and n.attr not in ('get_ent', 'ent_map')]
+    writes_bases = any(isinstance(n, (ast.Assign, ast.AugAssign)) and any(
+        (isinstance(t, ast.Attribute) and t.attr == 'bases') or
+        (isinstance(t, ast.Subscript) and isinstance(t.value, ast.Attribute) and t.value.attr == 'bases')
+        for t in (n.targets if isinstance(n, ast.Assign) else [n.target])) for n in ast.walk(app))
+    if other_self or not writes_bases:
+        raise TranslateError('_parse_block: bases loop not recognised: ' + ast.unparse(app)[:200])
+    if get_calls and not map_reads:
+        if not all(len(c.args) == 1 and not c.keywords for c in get_calls):
+            raise TranslateError('_parse_block: get_ent call in the bases loop not recognised')
+        via_get_ent = True
+    elif map_reads and not get_calls:
+        via_get_ent = False
+    else:
+        raise TranslateError('_parse_block: the bases loop neither calls self.get_ent nor reads self.ent_map (or does both): '
+                             + ast.unparse(app)[:200])
+    # ---- get_fgd
+    gf = edb['get_fgd']
+    found = False
+    for n in ast.walk(gf):
+        if isinstance(n, ast.For) and _is(n.iter, 'enumerate(self.unparsed)') and isinstance(n.target, ast.Tuple) \
+                and isinstance(n.target.elts[0], ast.Name):
+            i = n.target.elts[0].id
+            if any(_is(c, f'self._parse_block({i})') for c in ast.walk(n) if isinstance(c, ast.Call)):
+                found = True
+    if not found:
+        raise TranslateError('get_fgd: `for i, ... in enumerate(self.unparsed): ... self._parse_block(i)` not recognised')
+    return dict(via_get_ent=via_get_ent, mark_before_resolve=mark[0] < loops[1], mark_after_decode=mark[0] > loops[0],
+                fgd_applies_bases=any(_is_call_method(n, 'apply_bases') for n in ast.walk(gf)))
 
 
 # ------------------------------------------------------------------------------------------ emit
@@ -460,6 +566,10 @@ def translate() -> tuple[str, dict]:
         f'Definition string_sep : N := {ord(db["consts"]["STRING_SEP"])}%N.',
         f'Definition bin_format_version : N := {db["consts"]["BIN_FORMAT_VERSION"]}%N.',
         'Definition struct_formats : list (string * string) := [' + '; '.join(f'("{k}", "{v}")' for k, v in db['structs'].items()) + '].',
+        '(* EngineDB._parse_block: bases resolved through self.get_ent (true) or by a look-up in self.ent_map (false); *)',
+        '(* the block is marked as decoded before the bases loop *)',
+        f'Definition lazy_via_get_ent : bool := {_b(db["lazy"]["via_get_ent"])}.',
+        f'Definition lazy_mark_before_resolve : bool := {_b(db["lazy"]["mark_before_resolve"] and db["lazy"]["mark_after_decode"])}.',
         '(* every bit operation with an integer literal in the (un)serialisers: (function, operator, literal) *)',
         'Definition bit_ops : list (string * string * N) := [' + '; '.join(
             f'("{fn}", "{op}", {lit}%N)' for fn, ops in db['bits'].items() for op, lit, _ in ops) + '].',
